@@ -99,9 +99,6 @@ static int encode_mem(struct instr *instrc, int m) {
     instrc->opd[m].index = instrc->opd[m].reg;
     instrc->opd[m].reg = swap;
   }
-  // rewrite an operand without base register first: the resulting base decides
-  // whether a SIB byte or a zero displacement byte is required
-  sib_no_base(instrc, &instrc->opd[m]);
   // if r/m value is a memory reference and is the spl register
   if ((instrc->opd[m].reg & VALUE_MASK) == spl &&
       instrc->opd[m].index == reg_none)
@@ -111,7 +108,7 @@ static int encode_mem(struct instr *instrc, int m) {
   // check for an additional zero byte when memory displace is zero
   unsigned int reg_opd = instrc->opd[m].reg & MODE_MASK;
   if (reg_opd > ext16 && reg_opd < mmx64 && !instrc->mem_offset &&
-      (instrc->opd[m].reg & VALUE_MASK) == bpl) {
+      !instrc->no_base && (instrc->opd[m].reg & VALUE_MASK) == bpl) {
     instrc->mod_disp = MOD8;
     instrc->zero_byte = true;
   }
